@@ -114,6 +114,18 @@ deriving DecidableEq, Repr
 def renderMeas (l : MeasLine) : List Char :=
   joinSep '\t' ([natToDec l.inv, natToDec l.it, l.value, l.unit, l.crit] ++ l.cols ++ [natToDec l.rid])
 
+/-- `as_table_cell`: a tab, line feed or carriage return inside a cell is written as a space -/
+def cleanCell (s : List Char) : List Char :=
+  s.map (fun c => if c = '\t' ∨ c = '\n' ∨ c = '\r' then ' ' else c)
+
+/-- the cells as ReBench writes them: unit and criterion in `Measurement.as_str_list`,
+the run's columns in `RunId.as_str_list` -/
+def MeasLine.cleaned (l : MeasLine) : MeasLine :=
+  { l with unit := cleanCell l.unit, crit := cleanCell l.crit, cols := l.cols.map cleanCell }
+
+/-- the line that is written for a measurement reported with these texts -/
+def writeMeas (l : MeasLine) : List Char := renderMeas l.cleaned
+
 /-- what the loader recovers from one line (`Measurement.from_str_list`):
 `none` stands for the tolerated `ValueError` / `IndexError` (line skipped) -/
 structure ParsedMeas where
@@ -125,12 +137,22 @@ structure ParsedMeas where
   rid : Nat
 deriving DecidableEq, Repr
 
+/-- `Measurement._value_from_str`: `float(text)`, and the two texts a boolean value
+is written as (`True == 1`, `False == 0` in Python) -/
+def readValue (cs : List Char) : Option Rat :=
+  match readFixed cs with
+  | some v => some v
+  | none => if cs = "True".toList then some 1 else if cs = "False".toList then some 0 else none
+
+theorem readValue_of_readFixed {cs : List Char} {v : Rat} (h : readFixed cs = some v) : readValue cs = some v := by
+  simp [readValue, h]
+
 def parseMeas (line : List Char) : Option ParsedMeas :=
   match splitSep '\t' line with
   | a :: b :: c :: d :: e :: rest => do
       let inv ← decToNat? a
       let it ← decToNat? b
-      let v ← readFixed c
+      let v ← readValue c
       let last ← rest.getLast?
       let rid ← decToNat? last
       pure { inv := inv, it := it, value := v, unit := d, crit := e, rid := rid }
@@ -296,8 +318,8 @@ deriving DecidableEq, Repr
 def dictSet {α : Type} [DecidableEq α] (d : List (α × Nat)) (a : α) (v : Nat) : List (α × Nat) :=
   if (d.lookup a).isSome then d.map (fun p => if p.1 = a then (a, v) else p) else d ++ [(a, v)]
 
-/-- can `float()` read what was written in the value column -/
-def Value.loads (v : Value) : Bool := (readFixed v.text).isSome
+/-- can `Measurement._value_from_str` read what was written in the value column -/
+def Value.loads (v : Value) : Bool := (readValue v.text).isSome
 
 section Loader
 variable {κ β : Type} [DecidableEq κ] [DecidableEq β]
@@ -392,7 +414,7 @@ variable {κ β : Type} [DecidableEq κ] [DecidableEq β]
 variable (colsOf : κ → List (List Char)) (rtK : κ → κ) (rtB : β → β)
 
 def measText (inv it : Nat) (m : Meas) (k : κ) (rid : Nat) : List Char :=
-  renderMeas { inv := inv, it := it, value := m.value.text, unit := m.unit.toList, crit := m.crit.toList,
+  writeMeas { inv := inv, it := it, value := m.value.text, unit := m.unit.toList, crit := m.crit.toList,
                cols := colsOf k, rid := rid }
 
 /-- the invocation of the open data point as far as run `k` is concerned (`previous_run_id is not run_id`
